@@ -533,12 +533,18 @@ func (o *IndividualNodesCompareOptions) getTotals(nodes, other IndividualNodes) 
 //
 // See IndividualNodesCompareOptions for more options.
 func (nodes IndividualNodes) Compare(other IndividualNodes, options *IndividualNodesCompareOptions) IndividualComparisons {
-	defer func() {
+	defer func(options *IndividualNodesCompareOptions) {
 		if options.Notifier != nil {
 			close(options.Notifier)
 			options.Notifier = nil
 		}
-	}()
+	}(options)
+
+	// The options also carry the state of a single comparison (such as the
+	// individuals that have already been matched). The same options can be
+	// used for several comparisons, even at the same time, so each comparison
+	// needs its own state.
+	options = options.forNewComparison()
 
 	totals := options.getTotals(nodes, other)
 	jobs := createJobs(totals, nodes, other, options)
